@@ -88,6 +88,13 @@ func runC13(c *Ctx) {
 	exRA := mkKey("std-rA", hx("D4DE15474DB74D06491C440D305E012400990F3E390C7E87153C12DB2EA60BB3"))
 	exRB := mkKey("std-rB", hx("7E07124814B309489125EAED101113164EBF0F3458C5BD88335C1F9D596243D6"))
 	runCase(kxCase{"standard-example", exA, exB, exRA, exRB, ref.DefaultUID, ref.DefaultUID, 16})
+	// the zero-length identity in both of its spellings (nil and empty): ENTL = 0 and nothing else, for either party
+	for _, sp := range []struct {
+		name     string
+		ida, idb []byte
+	}{{"A=nil", nil, []byte("bob")}, {"A=empty", []byte{}, []byte("bob")}, {"B=nil", []byte("alice"), nil}, {"B=empty", []byte("alice"), []byte{}}, {"both-nil", nil, nil}, {"nil-and-empty", nil, []byte{}}} {
+		runCase(kxCase{"kx/zero-length-identity/" + sp.name, exA, exB, exRA, exRB, sp.ida, sp.idb, 16})
+	}
 	// identity lengths, densely: ZA hashes ENTL || ID || a || b || G || P (194 bytes around the identity), so the hash's
 	// block and padding boundaries fall at identity lengths like 53, 54, 117, 118 — every length 0..200 for either side
 	{
@@ -221,6 +228,46 @@ func runC13(c *Ctx) {
 			a, ra := keys[i%len(keys)], keys[(i+3)%len(keys)]
 			runCase(kxCase{"kx/peer-long-term-key-equals-xbar-times-ephemeral(P+[xbar]R doubles)", a, b, ra, rb, []byte("alice"), []byte("bob"), 16 + i})
 			runCase(kxCase{"kx/own-long-term-key-equals-xbar-times-ephemeral", b, a, rb, ra, []byte("alice"), []byte("bob"), 16 + i})
+		}
+	}
+
+	// d = -x-bar(R)*r mod n for one party: its own t = d + x-bar*r is 0 and the peer's U = P + [x-bar]R is the point at
+	// infinity, so V is infinite on BOTH sides — the standard's failure case; both calls must return an error, no key
+	{
+		rr := c.Rng("t-is-zero")
+		for i := 0; i < c.Q(6, 60); i++ {
+			rb := mkKey("eph", new(big.Int).Add(new(big.Int).SetBytes(rr.Bytes(31)), big.NewInt(1)))
+			dB := new(big.Int).Mul(ref.XBar(rb.x), rb.d)
+			dB.Mod(dB, ref.N)
+			dB.Sub(ref.N, dB)
+			if dB.Sign() <= 0 || dB.Cmp(new(big.Int).Sub(ref.N, big.NewInt(1))) >= 0 {
+				continue
+			}
+			b := mkKey("d=-xbar(R)*r", dB)
+			a, ra := keys[i%len(keys)], keys[(i+3)%len(keys)]
+			w := map[string]interface{}{"dB": dB.Text(16), "rB": rb.d.Text(16), "dA": a.d.Text(16), "rA": ra.d.Text(16)}
+			for role := 0; role < 4; role++ {
+				var k []byte
+				var err error
+				pi := mon.Guard(func() {
+					switch role {
+					case 0: // the degenerate party as responder
+						k, _, _, err = sm2.KeyExchangeB(16, []byte("alice"), []byte("bob"), b.priv(), a.pub(), rb.priv(), ra.pub())
+					case 1: // its peer as initiator
+						k, _, _, err = sm2.KeyExchangeA(16, []byte("alice"), []byte("bob"), a.priv(), b.pub(), ra.priv(), rb.pub())
+					case 2: // the degenerate party as initiator
+						k, _, _, err = sm2.KeyExchangeA(16, []byte("bob"), []byte("alice"), b.priv(), a.pub(), rb.priv(), ra.pub())
+					default:
+						k, _, _, err = sm2.KeyExchangeB(16, []byte("bob"), []byte("alice"), a.priv(), b.pub(), ra.priv(), rb.pub())
+					}
+				})
+				if pi != nil {
+					rep.Violation("C13/KeyExchange/panic/"+pi.Func, "V at infinity: "+pi.Value, w)
+				} else if err == nil {
+					rep.Violation("C13/KeyExchange/key-although-V-is-the-point-at-infinity", fmt.Sprintf("role %d returned key %x", role, k), w)
+				}
+				rep.Eval(fmt.Sprintf("kx/V-at-infinity/role=%d", role))
+			}
 		}
 	}
 
